@@ -260,6 +260,11 @@ func (e *Engine) branch(c *term.T, what string) bool {
 	if c.IsFalse() {
 		return false
 	}
+	if e.dbg && c.Op == term.OpEq && c.Args[0].W == 32 {
+		_, ok := term.SolveAffineEq(c.Args[0], c.Args[1])
+		d, m, aok := term.ANFStats(c.Args[0])
+		fmt.Fprintf(os.Stderr, "UNREWRITTEN 32-bit eq: solve ok=%v anf ok=%v deg=%d monos=%d size=%d rhsconst=%v\n", ok, aok, d, m, term.Size(c), c.Args[1].IsConst())
+	}
 	if e.initing {
 		panic(unsupported("symbolic branch during package initialisation"))
 	}
@@ -342,7 +347,7 @@ func (e *Engine) concretizeMax(t *term.T, what string, limit int) uint64 {
 	} else {
 		max := e.opt.MaxChoices
 		if max == 0 {
-			max = 70
+			max = 600
 		}
 		if limit > max {
 			max = limit
